@@ -426,6 +426,17 @@ func runQuotaAdv(ctx *core.RunCtx) {
 		prop = "C06"
 	}
 	ti := g.Choose(len(advTemplates))
+	if g.Chance(1, 4) {
+		// the churn templates (something is required and released over and over while the program
+		// holds more and more) need many rounds to tell: they get a larger share of the runs
+		var live []int
+		for i, t := range advTemplates {
+			if strings.HasPrefix(t.name, "live:") {
+				live = append(live, i)
+			}
+		}
+		ti = live[g.Choose(len(live))]
+	}
 	tpl := advTemplates[ti]
 	wrap := g.Choose(3)
 	if g.Chance(1, 6) {
